@@ -27,7 +27,11 @@ META = {
               'token; protocol versions 340, 385, 390, 391, 706, 707, 757 '
               '(either side of each login layout boundary), enumerated; '
               'disconnect messages: plain JSON text, non-JSON text and the '
-              'two "Outdated" forms',
+              'two "Outdated" forms; second attempts: the same Connection '
+              'after a first login attempt (scripts CD, D, PD with their own '
+              'symbolic threshold) retried from inside an exception handler; '
+              'at frame size == threshold the server may or may not '
+              'compress (symbolic)',
     'outside': 'thread interleavings; read segmentation (C01); AES/RSA/SHA-1 '
                'and zlib themselves (stubs E-cipher, E-rsa, E-urandom, '
                'E-sha1, E-zlib); user handlers that take over plugin requests',
